@@ -15,7 +15,7 @@ from . import rx
 from . import strlemmas
 
 BUILTINS = {
-    "len", "str", "int", "list", "tuple", "dict", "all", "any", "type", "range", "enumerate", "iter", "next",
+    "ascii_digits", "len", "str", "int", "list", "tuple", "dict", "all", "any", "type", "range", "enumerate", "iter", "next",
     "open", "bool", "max", "min", "sorted", "repr", "abs", "print", "set", "bytes", "ord", "chr", "sum", "zip",
     "isinstance", "hasattr", "getattr", "setattr", "object", "float",
 }
@@ -175,6 +175,18 @@ def oserror_args(eng, hint):
     """Arguments of an OSError raised by the platform: one argument (socket.timeout('timed out'))
     or (errno, strerror)."""
     eng.assumptions_used.add("OSError raised by the OS/socket layer has args (msg,) [socket.timeout] or (errno, strerror)")
+    return LazyOSArgs(hint)
+
+
+def force_oserror_args(eng, exc):
+    if not isinstance(exc.args, LazyOSArgs):
+        return exc.args
+    hint = exc.args.hint
+    exc.args = _oserror_args_now(eng, hint)
+    return exc.args
+
+
+def _oserror_args_now(eng, hint):
     if eng.branch_fresh("oserr_onearg_" + hint):
         return [VStr(z3.String(eng.fresh_name("oserr_msg_" + hint)))]
     return [VInt(z3.Int(eng.fresh_name("oserr_errno_" + hint))), VStr(z3.String(eng.fresh_name("oserr_strerror_" + hint)))]
@@ -269,6 +281,11 @@ def call_builtin(eng, world, n, args, kwargs, node, fr):
         if a0 is NONE:
             eng.raise_("TypeError", site=node.lineno)
         raise OutOfSubset("len of %r" % (a0,))
+    if n == "ascii_digits":
+        # contract helper: s is a non-empty string of ASCII digits (the case in which int(s) is exact)
+        if is_conc(a0.z):
+            return VBool(a0.z != "" and all(c in "0123456789" for c in a0.z))
+        return VBool(z3.InRe(S(a0.z), z3.Plus(ASCII_DIGITS)))
     if n == "str":
         if not args:
             return VStr("")
@@ -577,7 +594,18 @@ def str_method(eng, world, s, m, args, kwargs, node):
             return VBool(z.isascii())
         return VBool(z3.InRe(S(z), z3.Star(z3.Range(z3.StringVal("\x00"), z3.StringVal("\x7f")))))
     if m == "isdigit" and not args:
-        return VBool(z3.InRe(S(z), z3.Plus(digit_re() if not s.isbytes else ASCII_DIGITS)))
+        if s.isbytes:
+            return VBool(z3.InRe(S(z), z3.Plus(ASCII_DIGITS)))
+        # str.isdigit(): uninterpreted predicate pinned down on the ASCII fragment (exactly [0-9]+ there);
+        # non-ASCII digit characters exist (and int() may reject them), so nothing more is claimed
+        eng.assumptions_used.add("str.isdigit(): true for non-empty ASCII digit strings, implies non-empty, and on ASCII strings equivalent to [0-9]+ (CPython: the only ASCII characters with the Numeric_Type Digit/Decimal property are 0-9)")
+        p = sfun("py_isdigit", STR, BOOL)(S(z))
+        ascii_ = z3.InRe(S(z), z3.Star(z3.Range(z3.StringVal("\x00"), z3.StringVal("\x7f"))))
+        simple = z3.InRe(S(z), z3.Plus(ASCII_DIGITS))
+        eng.assume(z3.Implies(simple, p))
+        eng.assume(z3.Implies(p, z3.Length(S(z)) > 0))
+        eng.assume(z3.Implies(z3.And(p, ascii_), simple))
+        return VBool(p)
     if m == "encode":
         return str_encode(eng, s, args, kwargs, node)
     if m == "decode":
@@ -642,6 +670,10 @@ def _homomorph(eng, z, fname, conc_fn):
         return z3.StringVal(conc_fn(z.as_string() if False else _unesc(z)))
     if z3.is_app(z) and z.decl().kind() == z3.Z3_OP_SEQ_CONCAT:
         return z3.Concat(*[_homomorph(eng, c, fname, conc_fn) for c in z.children()])
+    if z3.is_app(z) and z.decl().kind() == z3.Z3_OP_ITE:
+        return z3.If(z.arg(0), _homomorph(eng, z.arg(1), fname, conc_fn), _homomorph(eng, z.arg(2), fname, conc_fn))
+    if fname in ("se_encode", "utf8_encode", "bsr_encode") and _ascii_by_construction(z):
+        return z
     return sfun(fname, STR, STR)(z)
 
 
@@ -659,6 +691,24 @@ def _unesc(zv):
             out.append(s[i])
             i += 1
     return "".join(out)
+
+
+def _ascii_by_construction(t):
+    """Concatenations of ASCII literals and decimal renderings of integers are ASCII."""
+    if z3.is_string_value(t):
+        return all(ord(c) < 128 for c in _unesc(t))
+    if not z3.is_app(t):
+        return False
+    k = t.decl().kind()
+    if k == z3.Z3_OP_SEQ_CONCAT:
+        return all(_ascii_by_construction(c) for c in t.children())
+    if k == z3.Z3_OP_ITE:
+        return _ascii_by_construction(t.arg(1)) and _ascii_by_construction(t.arg(2))
+    if t.decl().name() in ("int.to.str", "str.from_int"):
+        return True
+    if z3.is_const(t) and t.decl().name().startswith("time_"):
+        return True  # strftime/ctime with the fixed formats used in the repository (C locale)
+    return False
 
 
 def str_encode(eng, s, args, kwargs, node):
@@ -687,6 +737,13 @@ def str_encode(eng, s, args, kwargs, node):
         if err == "backslashreplace":
             eng.assumptions_used.add("str.encode(errors='backslashreplace') is per-character, identity on ASCII, never raises")
             return VStr(_homomorph(eng, s.z, "bsr_encode", lambda c: c.encode("utf-8", "backslashreplace").decode("latin-1")), True)
+        if err == "strict" and _ascii_by_construction(S(s.z)):
+            return VStr(_homomorph(eng, s.z, "utf8_encode", lambda c: c.encode("utf-8").decode("latin-1")), True)
+        if err == "strict" and z3.is_const(S(s.z)) and S(s.z).decl().name().startswith("cfg["):
+            eng.assumptions_used.add("configuration strings are UTF-8 encodable")
+            return VStr(_homomorph(eng, s.z, "utf8_encode", lambda c: c.encode("utf-8").decode("latin-1")), True)
+        if err == "strict" and eng.branch(z3.InRe(S(s.z), z3.Star(z3.Range(z3.StringVal("\x00"), z3.StringVal("\x7f"))))):
+            return VStr(s.z, True)
         if err == "strict":
             eng.assumptions_used.add("str.encode() (strict UTF-8) is per-character and identity on ASCII; may raise UnicodeEncodeError on lone surrogates (modelled by an uninterpreted predicate)")
             ok = sfun("utf8_strict_ok", STR, BOOL)(S(s.z))
@@ -861,9 +918,7 @@ def _wfile_fault(eng, w, node):
         return
     eng.assumptions_used.add("wfile.write may raise OSError at any call (fault model); it raises nothing else")
     if eng.branch_fresh("wfile_write_fails"):
-        a = oserror_args(eng, "wfile")
-        cls = "TimeoutError" if len(a) == 1 else "OSError"
-        exc = VExc(cls, a)
+        exc = VExc("OSError", oserror_args(eng, "wfile"))
         exc.attrs["from_wfile"] = VBool(True)
         eng.ghost.setdefault("wfile_faults", VList([])).items.append(exc)
         raise Raised(exc, getattr(node, "lineno", None))
@@ -1014,7 +1069,11 @@ def _syscall(name, raises="OSError"):
         trace_event(eng, name, args)
         if eng.branch_fresh("fails_" + name.replace(".", "_")):
             trace_event(eng, "FAILED:" + name, [])
-            raise Raised(VExc(raises, oserror_args(eng, name) if raises == "OSError" else [VStr("x")]), getattr(node, "lineno", None))
+            cls = raises
+            if raises == "OSError":
+                # the failure surfaces as OSError or as one of its errno-specific subclasses
+                cls = ["OSError", "PermissionError", "FileNotFoundError"][eng.choose(3, "errclass_" + name.replace(".", "_"))]
+            raise Raised(VExc(cls, oserror_args(eng, name) if raises == "OSError" else [VStr("x")]), getattr(node, "lineno", None))
         return NONE
 
     return impl
@@ -1161,6 +1220,28 @@ def match_group(eng, pat, subj, kind, i):
     raise OutOfSubset("capture group %d of %r" % (i, pat))
 
 
+def re_sub(eng, world, args, kwargs, node):
+    """re.sub(<char-class>+, repl, s): the result contains no character of the class when repl has none
+    (assumed contract of re.sub for the literal patterns used in the repository)."""
+    pat, repl, subj = [eng.force(a) for a in args[:3]]
+    if not (isinstance(pat, VStr) and is_conc(pat.z) and isinstance(repl, VStr) and is_conc(repl.z)):
+        raise OutOfSubset("re.sub with non-literal pattern/replacement")
+    classes = {r"[\r\n]+": "\r\n", r"\s+": " \t\n\r\x0b\x0c", r"[\s]+": " \t\n\r\x0b\x0c"}
+    if pat.z not in classes:
+        raise OutOfSubset("re.sub pattern %r" % pat.z)
+    if is_conc(subj.z):
+        import re as _re
+        return VStr(_re.sub(pat.z, repl.z, subj.z))
+    eng.assumptions_used.add("re.sub(%r, %r, s): the result contains none of the characters matched by the class (unless the replacement does), and equals s when s contains none" % (pat.z, repl.z))
+    f = sfun("re_sub_%s" % "".join("%02x" % ord(c) for c in pat.z + "|" + repl.z), STR, STR)
+    r = f(S(subj.z))
+    for ch in classes[pat.z]:
+        if ch not in repl.z:
+            eng.assume(z3.Not(z3.Contains(r, z3.StringVal(ch))))
+    return VStr(r)
+
+
+EXT_IMPL["re.sub"] = re_sub
 EXT_IMPL["re.search"] = re_call("search")
 EXT_IMPL["re.match"] = re_call("match")
 
